@@ -7,7 +7,12 @@ echo "# Seeded changes vs. quick checks ($(date -u +%Y-%m-%dT%H:%MZ), /repo $(gi
 echo >> $out.tmp
 echo "| change | property checked | verdict | seconds | first message |" >> $out.tmp
 echo "|---|---|---|---|---|" >> $out.tmp
+# SHARD=k/n: only every n-th change starting with the k-th (several workers side by side; the
+# outputs are concatenated and sorted by tools/seedmerge.sh)
+sk=${SHARD%%/*}; sn=${SHARD##*/}; i=0
 for d in seeded/C*/; do
+  i=$((i+1))
+  if [ -n "$SHARD" ] && [ $((i % sn)) -ne $((sk % sn)) ]; then continue; fi
   name=$(basename $d)
   prop=${name:0:3}
   props=$(python3 -c "import json; m=json.load(open('$d/meta.json')); print(' '.join(m.get('caught_by',[m['property']])))")
